@@ -1070,6 +1070,11 @@ class Config:  # pylint: disable=too-many-instance-attributes
                 return value
 
         if isinstance(value, Config):
+            expected = field if isinstance(field, Schema) else field.config_type.__schema__  # type: ignore
+            if value._schema is not expected:
+                raise ValidationError(
+                    self, field, "configuration does not match the field's schema"
+                )
             value._parent = self
             value._key = key
         elif isinstance(value, dict) and isinstance(field, (Schema, ConfigTypeField)):
